@@ -11,6 +11,9 @@ A *case* is a buffer configuration plus a JSON list of operations
     ["select", t]         select_task(t); t may be invalid (multi-task only)
     ["save", how]         pickle.dumps / copy.deepcopy of the buffer (a read: the buffer that keeps
                           running must be unchanged)
+    ["reload", how]       the run continues with the pickle round trip / deep copy of the buffer
+    ["edge"]              sample_batch through a stub generator that returns the extreme values a
+                          generator can return (0.0, the largest double below 1; low, high - 1)
 
 which is interpreted against the real buffer and against an independent list-based
 reference model (a python list of the added transitions per task).  Every field of the
@@ -31,10 +34,11 @@ from vlib.instruments import StubGenerator
 PROPERTY = "C02"
 RULE = (
     "Cases are operation sequences (add bursts / sample with a seeded generator / exhaustive sweep "
-    "through a stub generator / len / select_task with valid and invalid ids / taking a pickle or deep copy of "
-    "the running buffer) drawn by Hypothesis "
+    "through a stub generator / draws at the extreme values a generator can return / len / select_task with valid "
+    "and invalid ids / taking a pickle or deep copy of the running buffer / continuing with such a copy) drawn by "
+    "Hypothesis "
     "over ReplayBuffer, LAP, PrioritizedReplayBuffer and MultiTaskReplayBuffer(inner, 1-4 tasks), "
-    "capacities 1-12, six key/dtype/shape schemas. Non-trivial (single): a sample or sweep is executed "
+    "capacities 1-12 (a quarter of the single-buffer cases 13-40), six key/dtype/shape schemas. Non-trivial (single): a sample or sweep is executed "
     "when more transitions were added than the capacity (after wrap-around). Non-trivial (multitask): "
     "additionally at least two tasks held data at that moment. Distinct = distinct (kind, tasks, "
     "capacity, schema, operation list without generator seeds)."
@@ -279,7 +283,7 @@ class Interp:
         m = self.m
         if name == "select" and not m.multi:
             name, op = "len", ["len"]
-        if name in ("sample", "sweep") and not m.active():
+        if name in ("sample", "sweep", "edge") and not m.active():
             name, op = "add", ["add", 1]  # precondition by construction
             self.labels.add("remapped-empty-sample")
         getattr(self, "op_" + name)(*op[1:])
@@ -317,6 +321,52 @@ class Interp:
         self.labels.add("save-" + how)
         if any(len(a) > self.m.N for a in self.m.added):
             self.labels.add("save-after-wrap")
+
+    def op_reload(self, how):
+        """The run continues with a copy of the buffer (pickle round trip / copy.deepcopy, the way a run is
+        resumed from a checkpoint or a MultiTaskReplayBuffer is built from a buffer in use): the copy holds
+        exactly what the buffer held, and every later clause applies to it."""
+        import copy
+        import pickle
+
+        new = copy.deepcopy(self.buf) if how == "deepcopy" else pickle.loads(pickle.dumps(self.buf))
+        self._after_op(set(), f"{how} of the buffer")
+        self.buf = new
+        self.bufs = list(new.buffers) if self.m.multi else [new]
+        for t in range(self.m.n_tasks):
+            self._verify_storage(t, f"continuing with the {how} copy")
+            self.snap[t] = self._snapshot(t)
+        self.labels.add("reload-" + how)
+        if any(len(a) > self.m.N and len(a) % self.m.N for a in self.m.added):
+            self.labels.add("reload-after-partial-wrap")
+
+    def op_edge(self):
+        """One sample_batch call per task with data whose generator returns the extreme values a real generator
+        can return (uniform: 0.0 and the largest double below 1; integers: low and high - 1): every row is still a
+        live transition."""
+        m = self.m
+        top = float(np.nextafter(1.0, 0.0))
+        for t in m.active():
+            L = m.length(t)
+            q = {}
+            if self.kind == "uniform":
+                q["integers"] = [lambda lo, hi, size: np.asarray([lo, hi - 1, hi - 1, lo])]
+            else:
+                q["uniforms"] = [np.asarray([0.0, top, top, 0.5])]
+            if m.multi:
+                q["choices"] = [lambda a, size, t=t: np.asarray([t])]
+            stub = StubGenerator(seed=0, **q)
+            where = f"extreme-value draw from task {t}"
+            out = self.buf.sample_batch(4, stub)
+            used = {c[0] for c in stub.calls}
+            if ("integers" if self.kind == "uniform" else "uniform") not in used or stub.q_int or stub.q_uni:
+                self.labels.add("edge-unsupported")
+                continue
+            batch = self._unpack(out, where)
+            self._check_batch(batch, 4, [t], where, "edge")
+            self._mark_nt(t)
+            self._after_op(set(), where)
+        self.labels.add("edge")
 
     def op_select(self, t):
         m = self.m
@@ -447,7 +497,8 @@ def _ops(cap, multi, n_tasks):
                        st.one_of(st.integers(1, 4), st.integers(1, 2 * cap + 2), st.sampled_from([1, 8, 16])),
                        gen.seeds())
     save = st.tuples(st.just("save"), st.sampled_from(["pickle", "deepcopy"]))
-    alts = [add, add, add, sample, sample, st.just(("sweep",)), st.just(("len",)), save]
+    reload_ = st.tuples(st.just("reload"), st.sampled_from(["pickle", "deepcopy"]))
+    alts = [add, add, add, sample, sample, st.just(("sweep",)), st.just(("len",)), save, reload_, st.just(("edge",))]
     if multi:
         sel = st.tuples(st.just("select"), st.one_of(st.integers(0, n_tasks - 1), st.integers(0, n_tasks - 1),
                                                       st.integers(-2, n_tasks + 2), st.just(10**6)))
@@ -458,7 +509,7 @@ def _ops(cap, multi, n_tasks):
 @st.composite
 def _cases(draw, multi):
     kind = draw(st.sampled_from(["uniform", "uniform", "lap", "per"]))
-    cap = draw(st.one_of(st.integers(1, 12), st.sampled_from([1, 2, 3, 4])))
+    cap = draw(st.one_of(st.integers(1, 12), st.sampled_from([1, 2, 3, 4]), st.integers(1, 12), st.integers(13, 40)))
     n_tasks = draw(st.sampled_from([1, 2, 2, 2, 3, 3, 3, 4, 4])) if multi else 0
     if multi and cap > 6:
         cap = 1 + cap % 6  # keep per-task wrap-around frequent
